@@ -564,15 +564,17 @@ def applyRDefault (f : SField) (v : RV) : RV :=
 def v1SamplerTypes : List String :=
   ["DeterministicSampler", "DynamicSampler", "EMADynamicSampler", "RulesBasedSampler", "TotalThroughputSampler"]
 
+def pickField (x : Ext) (T : List SField) (struct yaml : String) (kv : String × V1) : Option RV :=
+  match convField x T struct kv.1 kv.2 with
+  | .field y v => if y = yaml then some v else none
+  | _ => none
+
 /-- The value of the v2 field `yaml` of a struct given the v1 (key, value) pairs of its table. -/
 def fieldValue (x : Ext) (T : List SField) (struct : String) (kvs : List (String × V1)) (yaml : String) : Option RV :=
   match T.find? (fun f => f.struct == struct && f.yaml == yaml) with
   | none => none
   | some f =>
-    let hit := kvs.findSome? fun kv =>
-      match convField x T struct kv.1 kv.2 with
-      | .field y v => if y = yaml then some v else none
-      | _ => none
+    let hit := kvs.findSome? (pickField x T struct yaml)
     some (applyRDefault f (hit.getD (zeroOfKind f.kind)))
 
 end Refinery.Model.Convert
